@@ -539,6 +539,19 @@ impl<'a> VisitMut for Rewriter<'a> {
         }
         // R4 async erasure
         if self.req.erase_async {
+            // `tokio::spawn(async move { B })` -> `{ B }` (the spawned task is run in place)
+            if let Expr::Call(c) = e {
+                let f = compact_tokens(&c.func);
+                if (f == "tokio::spawn" || f == "spawn") && c.args.len() == 1 {
+                    if let Some(Expr::Async(a)) = c.args.first() {
+                        let blk = a.block.clone();
+                        *e = Expr::Block(ExprBlock { attrs: vec![], label: None, block: blk });
+                        self.bump("R4");
+                        self.visit_expr_mut(e);
+                        return;
+                    }
+                }
+            }
             if let Expr::Await(a) = e {
                 let inner = (*a.base).clone();
                 *e = inner;
